@@ -54,6 +54,13 @@ func init() {
 		"vfSharedWrites": vfSharedWrites,
 		"vfFail":        vfFail,
 		"vfTimeouts":    vfTimeouts,
+		// vfHammer(f): run f (twice, sequentially) - natively it is run from several goroutines at once
+		"vfHammer": func(fr *frame, args []value) value {
+			fr.i.ex.impure("vfHammer")
+			call(fr.i, fr, 0, args[0], nil)
+			call(fr.i, fr, 0, args[0], nil)
+			return nil
+		},
 		// vfOpaque(x): a fresh variable t with the path fact t == x; lemmas proved
 		// "from" selected facts then treat t as an atom
 		"vfOpaque": func(fr *frame, args []value) value {
